@@ -1,20 +1,24 @@
 #!/bin/bash
-# selftest/regress.sh [out file]: every archived seeded change must still be reported by the quick checks recorded in its
-# meta.json (caught_by_quick), every archived behaviour-preserving refactoring must leave its checks green.
-# Development-time only (about two hours); scratch copies live under /var/tmp and are removed.
+# selftest/regress.sh [out file] [shard k of n]: every archived seeded change must still be reported by the quick checks
+# recorded in its meta.json (caught_by_quick), every archived behaviour-preserving refactoring must leave its checks
+# green.  Development-time only; scratch copies live under /var/tmp and are removed.
 cd /verif
-OUT=${1:-/var/tmp/regress.out}
+OUT=${1:-/var/tmp/regress.out}; K=${2:-0}; N=${3:-1}
 : > $OUT
-for d in seeded/*/; do
+export SCRATCH_COPY=/var/tmp/regresscopy$K
+i=0
+for d in seeded/*/ selftest/benign/*/; do
+  i=$((i+1)); [ $((i % N)) -eq $K ] || continue
   id=$(basename $d)
-  checks=$(python3 -c "import json;print(' '.join(json.load(open('$d/meta.json'))['caught_by_quick']))")
-  res=$(selftest/eval_seeded.sh /verif/$d $checks 2>&1 | grep -E "quick:|MACHINERY|PATCH" | sort -u | sed -E 's/^(C[0-9]+) quick: ([A-Z]+).*/\1=\2/' | tr '\n' ' ')
-  echo "seeded $id: $res" >> $OUT
-done
-for d in selftest/benign/*/; do
-  id=$(basename $d)
-  checks=$(python3 -c "import json;print(' '.join(json.load(open('$d/meta.json'))['checks_run_quick_all_held']))")
-  res=$(selftest/eval_benign.sh /verif/$d $checks 2>&1 | grep -E "quick:|MACHINERY|PATCH|suite" | sed -E 's/^(C[0-9]+) quick: ([A-Z]+).*/\1=\2/' | tr '\n' ' ')
-  echo "benign $id: $res" >> $OUT
+  case $d in
+   seeded/*)
+    checks=$(python3 -c "import json;print(' '.join(json.load(open('$d/meta.json'))['caught_by_quick']))")
+    res=$(selftest/eval_seeded.sh /verif/$d $checks 2>&1 | grep -E "quick:|MACHINERY|PATCH" | sort -u | sed -E 's/^(C[0-9]+) quick: ([A-Z]+).*/\1=\2/' | tr '\n' ' ')
+    echo "seeded $id: $res" >> $OUT;;
+   *)
+    checks=$(python3 -c "import json;print(' '.join(json.load(open('$d/meta.json'))['checks_run_quick_all_held']))")
+    res=$(selftest/eval_benign.sh /verif/$d $checks 2>&1 | grep -E "quick:|MACHINERY|PATCH|suite" | sed -E 's/^(C[0-9]+) quick: ([A-Z]+).*/\1=\2/' | tr '\n' ' ')
+    echo "benign $id: $res" >> $OUT;;
+  esac
 done
 echo DONE >> $OUT
